@@ -156,6 +156,18 @@ class DT:
             out = set()
             if e.id in self.array_params:
                 out.add("in:" + e.id)
+            elif e.id not in self.defs and e.id in f.all_param_names():
+                # a parameter annotated int / float (not re-bound in the body)
+                cands = [f]
+                if f.cls is not None:
+                    # the declaration of the method in a base class documents the parameter's type
+                    for k in self.prog.mro(f.cls)[1:]:
+                        if f.name in k.methods:
+                            cands.append(k.methods[f.name])
+                for g in cands:
+                    for a in ast.walk(g.node.args):
+                        if isinstance(a, ast.arg) and a.arg == e.id and isinstance(a.annotation, ast.Name) and a.annotation.id in ("int", "float"):
+                            return {"pyint" if a.annotation.id == "int" else "pyfloat"}
             for v in self.defs.get(e.id, []):
                 out |= self.of(v) if v is not None else {"unknown"}
             if not out:
@@ -199,6 +211,16 @@ class DT:
                     return self.of(e.args[0])
                 if q == "numpy.frombuffer" and len(e.args) > 1:
                     return self.dtype_expr(e.args[1])
+                if q == "numpy.arange":
+                    # the dtype of arange follows its arguments: int64 when they are all integers
+                    tags = set()
+                    for a in e.args:
+                        tags |= self.of(a)
+                    if tags and tags <= {"pyint", "i8", "i16", "i32", "i64", "bool"}:
+                        return {"i64"}
+                    if tags & {"pyfloat", "f32", "f64"}:
+                        return {"f64"}
+                    return {"f64", "i64"} if "unknown" in tags else {"f64"}
                 return {"f64"}
             if q in SAME and e.args:
                 base = self.of(e.args[0])
